@@ -30,11 +30,12 @@ BOUNDS = {
     "semver_from_zerv": "valid schemas from 11 core (incl. literals that only sanitise to digits, signed or padded numbers, custom variables) x 5 extra-core x 3 build lists mixing var / str / uint components, incl. values that split into several identifiers, sanitise to nothing, or overflow u32) x 324 variable assignments; SemVer::from(Zerv).to_string() against an oracle written from the statement",
     "pep440_from_zerv": "the same 119 schemas x 324 assignments; PEP440::from(Zerv).to_string() against an oracle written from the statement",
     "bump_sequence": "3 start versions x all 28 pairs of levels (7 numeric levels + pre-release label) x 9 override/bump combinations x {no, bump, override} core index operation = 2268 argument sets: apply_component_processing against the real per-level handlers applied by hand in the documented order",
+    "ron_roundtrip": "38 schemas (16 fixed presets, custom schemas with empty / one-level / reversed / full precedence orders, 14 schemas with awkward literal texts) x 18 variable sets (quotes, backslashes, newlines, tabs, Unicode, RON-looking text; custom JSON objects, arrays, null, strings) = 684 objects: Display -> from_str equals the object, re-emission byte-identical, SemVer / PEP 440 rendering equal through the pipe",
     "semver_roundtrip": "4 cores x 308 pre-release lists (<=2 identifiers from 17, incl. leading-zero alphanumerics, hyphens, numerics around u64::MAX) x 12 build lists x {'', 'v'}: parse, print, compare with the input; 3 cores above u64::MAX; 22 strings outside the grammar must be rejected",
     "pep440_roundtrip": "6 epochs x 6 releases x ~110 pre-release spellings x 9 post x 5 dev x 8 local spellings x {'', v, V}, thinned to ~155k strings, each with its normal form computed from the fields (not by parsing): accepted, prints the normal form, normal form re-parses to itself and compares equal; 20 strings outside the grammar must be rejected",
     "tag_max_semver": "all pairs and a third of the triples over 20 tag names (spellings, pre-releases, build metadata, a non-version): filter_only_valid_tags keeps exactly the parsable ones; find_max_version_tag returns a valid tag that no other valid tag exceeds under the reference precedence",
     "tag_max_pep440": "all pairs and a third of the triples over 21 tag names (spellings, epochs, pre/post/dev, locals, a non-version): as tag_max_semver with the PEP 440 reference key",
-    "template_functions": "prefix / hash / hash_int / prefix_if / sanitize on 10 values (incl. multi-byte) x lengths {0,1,2,3,7,30}; format_timestamp on 4 instants x 10 formats incl. invalid ones — rendered through the real Tera engine",
+    "template_functions": "prefix / hash / hash_int / prefix_if / sanitize on 16 values (incl. multi-byte, whitespace-only and whitespace-padded) x lengths {0,1,2,3,7,30}; format_timestamp on 4 instants x 10 formats incl. invalid ones — rendered through the real Tera engine",
 }
 
 
